@@ -812,9 +812,15 @@ Definition VSsetclass_len_stmts_modelled : list string :=
   ["curr_len = (int)strlen(vs->vsclass);";
    "slen = (int)strlen(vsclass)";
    "if (curr_len != slen) vs->new_h_sz = (!0);"].
+Definition VSsizeof_stmts_modelled : list string :=
+  ["totalsize = 0;";
+   "totalsize += vs->wlist.esize[j];";
+   "if (!strcmp(av[i], vs->wlist.name[j]))";
+   "totalsize += vs->wlist.esize[j];"].
 Local Close Scope string_scope.
 Lemma model_follows_source_lemma :
   VSwrite_skeleton = VSwrite_skeleton_modelled /\ VSread_skeleton = VSread_skeleton_modelled /\
   vpackvs_order = vpackvs_order_modelled /\ vunpackvs_order = vunpackvs_order_modelled /\
-  VSsetname_len_stmts = VSsetname_len_stmts_modelled /\ VSsetclass_len_stmts = VSsetclass_len_stmts_modelled.
+  VSsetname_len_stmts = VSsetname_len_stmts_modelled /\ VSsetclass_len_stmts = VSsetclass_len_stmts_modelled /\
+  VSsizeof_stmts = VSsizeof_stmts_modelled.
 Proof. repeat split; reflexivity. Qed.
